@@ -14,8 +14,8 @@ func init() {
 var verifAllClasses = []stun.MessageClass{stun.ClassRequest, stun.ClassIndication, stun.ClassSuccessResponse, stun.ClassErrorResponse}
 
 func verifC02Inbound() {
-	n := 1 + verifTier()
-	s := verifInboundStep(verifStepCfg{nLocal: n, nRemote: n, lite: verifTier(), classes: verifAllClasses})
+	// quick: 1 local + 1 remote; thorough: 2 locals + 1 remote, lite agents included
+	s := verifInboundStep(verifStepCfg{nLocal: 1 + verifTier(), nRemote: 1, lite: verifTier(), classes: verifAllClasses})
 	w := s.w
 	unchanged := verifNothingChanged(s.before, s.after)
 	binding := s.isBinding()
